@@ -129,7 +129,7 @@ class ComponentCatalog:
                 if len(interface_node_ids) != len(interfaces_dict.keys()):
                     raise RuntimeError("The number of interface IDs provided is insufficient for this component "
                                        f"(need {len(interfaces_dict.keys())} instead of {len(interface_node_ids)}")
-                if len(interface_labels) != len(interfaces_dict.keys()):
+                if interface_labels is not None and len(interface_labels) != len(interfaces_dict.keys()):
                     raise RuntimeError("The number of PCI labels and MAC addresses provided is insufficient for this"
                                        f" component (need {len(interfaces_dict.keys())} instead of "
                                        f"{len(interface_labels)}")
